@@ -1,12 +1,12 @@
 package sim
 
 import (
-	"syscall"
 	"bufio"
 	"encoding/json"
 	"fmt"
 	"os"
 	"runtime/debug"
+	"syscall"
 	"testing"
 	"time"
 
